@@ -80,6 +80,8 @@ class TrajectoryConstraintsRemover(engines.engine.Engine, CompilerMixin):
             new_kind.unset_constraints_kind("STATE_INVARIANTS")
             new_kind.set_conditions_kind("NEGATIVE_CONDITIONS")
             new_kind.set_conditions_kind("DISJUNCTIVE_CONDITIONS")
+            # the monitoring atoms are updated by conditional effects
+            new_kind.set_effects_kind("CONDITIONAL_EFFECTS")
         return new_kind
 
     @staticmethod
